@@ -64,7 +64,12 @@ def run_harness(args):
         if tier == 'thorough':
             E.prove_timeout_ms = 120000
             E.branch_timeout_ms = 20000
-        if tier == 'mutation':          # pyvc.mutants: short budgets, no second back end (unknown = "noticed", not killed)
+        if h.timeout_s:
+            E.harness_budget_s = h.timeout_s
+        if tier == 'thorough':
+            E.harness_budget_s *= 6
+        if tier == 'mutation':
+            E.harness_budget_s = 40          # pyvc.mutants: short budgets, no second back end (unknown = "noticed", not killed)
             E.prove_timeout_ms = int(os.environ.get('PYVC_MUT_PROVE_MS', '4000'))
             E.branch_timeout_ms = 2000
         H.install_common_stubs(E)
